@@ -48,6 +48,7 @@ OPS = [
     # other argument forms of update (the specification sees the same pairs), a fourth key, a read of the third
     {"op": "update", "arg": [{"k": 1, "v": 1}, {"k": 3, "v": 2}], "form": "dict"}, {"op": "update", "arg": [{"k": 2, "v": 1}, {"k": 3, "v": 3}], "form": "gen"},
     {"op": "update", "arg": [{"k": 2, "v": 1}], "form": "ior"}, {"op": "setitem", "k": 4, "v": 4}, {"op": "getitem", "k": 3},
+    {"op": "update", "arg": [{"k": 1, "v": 2}, {"k": 3, "v": 1}], "form": "pairs+kw"},      # one call: a positional source and keyword items
 ]
 # membership, len() and iteration are inherited dict reads that take no lock (the property's mechanism lists only the
 # locked methods); they can see the two dict writes of an evicting insert one at a time, so they are not used as
@@ -82,6 +83,8 @@ def apply(c, op):
                 c.update(dict(ps_))
             elif form == "gen":
                 c.update(p_ for p_ in ps_)
+            elif form == "pairs+kw":
+                c.update(ps_[:1], **dict(ps_[1:]))
             elif form == "ior":
                 c |= ps_
             else:
@@ -278,9 +281,9 @@ def jobs(tier, seed):
     # observer pairs: one thread performs a multi-step mutation (an evicting insert touches the dict twice), the other
     # looks at BOTH affected keys one after the other; only a two-operation observer can see a half-done mutation
     full = [{"k": 1, "v": 4}, {"k": 2, "v": 5}]
-    muts = [{"op": "setitem", "k": 3, "v": 3}] if tier != "thorough" else \
+    muts = [{"op": "setitem", "k": 3, "v": 3}, {"op": "update", "arg": [{"k": 1, "v": 2}, {"k": 3, "v": 1}], "form": "pairs+kw"}] if tier != "thorough" else \
         [{"op": "setitem", "k": 3, "v": 3}, {"op": "update", "arg": [{"k": 3, "v": 1}]}, {"op": "setdefault", "k": 3, "d": 5},
-         {"op": "update", "arg": [{"k": 3, "v": 1}, {"k": 1, "v": 2}]}]
+         {"op": "update", "arg": [{"k": 3, "v": 1}, {"k": 1, "v": 2}]}, {"op": "update", "arg": [{"k": 1, "v": 2}, {"k": 3, "v": 1}], "form": "pairs+kw"}]
 
     def obs(kind, k):
         return {"op": kind, "k": k, "d": 5} if kind != "getitem" else {"op": "getitem", "k": k}
